@@ -3,7 +3,7 @@
 set -u
 patch=$1; prop=$2; tier=${3:-quick}
 cd /repo && git apply "$patch" || { echo "PATCH DOES NOT APPLY"; exit 9; }
-cd /verif && ./check "$prop" --tier "$tier" 2>&1 | grep -v "WARNING conda" | tail -${4:-8}
+cd /verif && VERIF_NO_EVIDENCE=1 ./check "$prop" --tier "$tier" 2>&1 | grep -v "WARNING conda" | tail -${4:-8}
 rc=${PIPESTATUS[0]}
 git -C /repo checkout -- . 
 echo "check exit=$rc; repo clean: $(git -C /repo status --short | wc -l)"
